@@ -165,6 +165,27 @@ pub fn run(ctx: &Ctx, rep: &mut Reporter) -> Json {
         input.truncate(len);
         let r = guarded(|| {
             let a = check_one(&input, "random", rep, case_idx, &mut log);
+            // sub-mappings and clones are identified by their own bytes, whatever was asked before
+            if input.len() >= 2 {
+                let a0 = rng.below(input.len());
+                let b0 = a0 + rng.below(input.len() - a0 + 1);
+                let exp = proguard_uuid(&input[a0..b0]);
+                for warm in [true, false] {
+                    let (s, c) = cur::uuid_section(&input, a0, b0, warm);
+                    rep.count("evaluations", 2);
+                    rep.count("section_uuid_checks", 2);
+                    if s != exp || c != exp {
+                        let mut d = Json::obj();
+                        d.set("input_len", Json::i(input.len() as u64));
+                        d.set("range", Json::s(format!("{a0}..{b0}")));
+                        d.set("parent_uuid_computed_first", Json::Bool(warm));
+                        d.set("expected", Json::s(exp.clone()));
+                        d.set("section_uuid", Json::s(s));
+                        d.set("clone_uuid", Json::s(c));
+                        rep.violation(case_idx, "uuid-oracle", "uuid() of a section (or its clone) is not the v5 UUID of the section's bytes", d);
+                    }
+                }
+            }
             // a second copy at a different address gives the same identifier
             let copy = input.clone();
             let b = cur::uuid(&copy);
